@@ -3,6 +3,8 @@
 From Curies.model Require Import Str PyData Trie Conv Query Val Answer Spec CheckQ Reference.
 From Curies.proofs Require Import StrFacts IndexFacts QueryFacts SortFacts ReferenceFacts.
 From Curies.proofs Require Import PModelRef.
+From Curies.model Require Import Csv.
+From Curies.proofs Require Import CsvFacts.
 
 (* prints as prefix:identifier and parses back, splitting at the first separator only *)
 Theorem C15_roundtrip : forall p i c n, ~ In 58%N p -> from_curie colon (curie (mk c p i n)) = Val (p, i).
@@ -65,10 +67,42 @@ Proof. vm_compute. auto. Qed.
 
 (* What the run observes through the modelled functions is the property written down directly (spec_ref_obs in model/Reference.v:
    the printed form, the pair read back, the split at the first separator, the equality table of the four classes, the order laws
-   on pairs, the canonical prefix under a converter, the triples round trip) -- on every valid case; the run's predicate is
-   "the observation equals spec_ref_obs" *)
+   on pairs, the canonical prefix under a converter, the triples round trip) -- on every valid case in which the three CURIEs fit
+   csv's field size limit; the run's predicate is "the observation equals spec_ref_obs" *)
 Theorem C15_P_model : forall p i name p2 i2 p3 i3 sep s recs,
   no_colon p && no_colon p2 && no_colon p3 && negb (is_nil sep) && match recs with Some rs => strict_okb rs | None => true end = true ->
+  triples_fit p i p2 i2 p3 i3 = true ->
   model_ref_obs p i name p2 i2 p3 i3 sep s recs = spec_ref_obs p i name p2 i2 p3 i3 sep s recs.
 Proof. exact P_C15_model. Qed.
 Print Assumptions C15_P_model.
+(* ... and with the triples clause masked, on EVERY valid case *)
+Theorem C15_P_model_excl : forall p i name p2 i2 p3 i3 sep s recs,
+  no_colon p && no_colon p2 && no_colon p3 && negb (is_nil sep) && match recs with Some rs => strict_okb rs | None => true end = true ->
+  mask_last (model_ref_obs p i name p2 i2 p3 i3 sep s recs) = spec_ref_obs p i name p2 i2 p3 i3 sep s recs.
+Proof. exact P_C15_model_excl. Qed.
+Print Assumptions C15_P_model_excl.
+
+(* ---- the triples FILE (model/Csv.v: csv.writer with minimal quoting, csv.reader's state machine, the field size limit) ---- *)
+(* every row of strings -- any code points: tabs, quotes, CR, LF, the empty string, the empty row -- reads back, provided each field
+   is at most csv.field_size_limit() = 131072 characters long; and that bound is exact *)
+Theorem C15_csv_roundtrip : forall d rows, delim_ok d -> Forall (Forall (short csv_field_limit)) rows ->
+  csv_read d (csv_write_rows d rows) = Some rows.
+Proof. exact csv_roundtrip. Qed.
+Print Assumptions C15_csv_roundtrip.
+Theorem C15_csv_roundtrip_iff : forall lim d rows, delim_ok d ->
+  (csv_read_lim lim d (csv_write_rows d rows) = Some rows <-> Forall (Forall (short lim)) rows).
+Proof. exact csv_roundtrip_iff. Qed.
+Print Assumptions C15_csv_roundtrip_iff.
+Theorem C15_triples_file : forall header ts, Forall (short csv_field_limit) header ->
+  Forall (fun t => match t with (s, p, o) => curie_short s /\ curie_short p /\ curie_short o end) ts ->
+  csv_read TAB (csv_write_rows TAB (header :: triple_rows ts)) = Some (header :: triple_rows ts).
+Proof. exact csv_triples_file_roundtrip. Qed.
+Print Assumptions C15_triples_file.
+(* The clause "write_triples / read_triples give back an equal object" is FALSE of the faithful model for a reference whose CURIE
+   is longer than the limit: the file is written, reading it raises csv.Error.  The same input fails on the implementation
+   (identifier of 131071 characters): known finding K2 in known_findings.json, corpus/C15/K2_long_identifier.json. *)
+Theorem C15_triples_long_refuted : exists i,
+  triples_fit [97%N] i [97%N] [49%N] [97%N] [49%N] = false /\
+  triples_file_roundtrip (mk CRef [97%N] i None) (mk CRef [97%N] [49%N] None) (mk CRef [97%N] [49%N] None) = VInt 0.
+Proof. exact triples_long_refuted. Qed.
+Print Assumptions C15_triples_long_refuted.
